@@ -51,6 +51,72 @@ theorem collInv_foldl : ∀ (rows : List RawRow) (c : Collector), CollInv c → 
 theorem collInv_collect (rows : List RawRow) : CollInv (collect rows) :=
   collInv_foldl rows _ collInv_empty
 
+/-! ### packs: a fixed syllabary learns nothing -/
+
+theorem insertSet_of_mem {α : Type} {lt : α → α → Bool} (h : StrictTotal lt) (x : α) :
+    ∀ l, Ascending lt l → x ∈ l → insertSet lt x l = l
+  | [], _, hx => by simp at hx
+  | y :: ys, ha, hx => by
+    have hp := List.pairwise_cons.mp ha
+    simp only [insertSet]
+    rcases List.mem_cons.mp hx with rfl | hin
+    · simp [h.irrefl]
+    · have hyx : lt y x = true := hp.1 x hin
+      have hxy : lt x y = false := by
+        cases hc : lt x y with
+        | false => rfl
+        | true => have := h.trans x y x hc hyx; rw [h.irrefl] at this; cases this
+      simp only [hxy, Bool.false_eq_true, if_false, hyx, if_true]
+      rw [insertSet_of_mem h x ys hp.2 hin]
+
+theorem learn_of_subset (syl : List Bytes) (h : Ascending bytesLt syl) :
+    ∀ (code : List Bytes), (∀ s ∈ code, s ∈ syl) → learn syl code = syl
+  | [], _ => rfl
+  | x :: xs, hc => by
+    have hx : insertSet bytesLt x syl = syl := insertSet_of_mem bytesLt_strict x syl h (hc x (by simp))
+    have := learn_of_subset syl h xs (fun s hs => hc s (by simp [hs]))
+    simpa [learn, List.foldl_cons, hx] using this
+
+theorem createEntry_syllabary (c : Collector) (r : RawRow) :
+    (createEntry c r).syllabary = learn c.syllabary (tokens r.codeStr) := by
+  unfold createEntry
+  simp only
+  split
+  · split <;> rfl
+  · rfl
+
+theorem foldl_collectRow_fixed (syl : List Bytes) (h : Ascending bytesLt syl) :
+    ∀ (rows : List RawRow) (c : Collector), c.syllabary = syl →
+      (∀ r ∈ rows, r.codeStr.isEmpty = true ∨ ∀ s ∈ tokens r.codeStr, s ∈ syl) →
+      (rows.foldl collectRow c).syllabary = syl
+  | [], _, hc, _ => hc
+  | r :: rs, c, hc, hr => by
+    simp only [List.foldl_cons]
+    apply foldl_collectRow_fixed syl h rs
+    · unfold collectRow
+      split
+      · exact hc
+      · next hne =>
+        rw [createEntry_syllabary, hc]
+        rcases hr r (by simp) with h0 | h1
+        · exact absurd h0 hne
+        · exact learn_of_subset syl h _ h1
+    · intro r' hr'
+      exact hr r' (by simp [hr'])
+
+theorem packRows_ok (syl : List Bytes) (rows : List RawRow) :
+    ∀ r ∈ packRows syl rows, r.codeStr.isEmpty = true ∨ ∀ s ∈ tokens r.codeStr, s ∈ syl := by
+  intro r hr
+  have := (List.mem_filter.mp hr).2
+  simp only [Bool.or_eq_true, List.all_eq_true] at this
+  rcases this with h0 | h1
+  · exact Or.inl h0
+  · exact Or.inr (fun s hs => by simpa using h1 s hs)
+
+theorem collInv_collectPack (syl : List Bytes) (h : Ascending bytesLt syl) (rows : List RawRow) :
+    CollInv (collectPack syl rows) :=
+  collInv_foldl _ _ ⟨h, by simp [Collector.empty]⟩
+
 theorem syllableId_lt {syl : List Bytes} {s : Bytes} (h : s ∈ syl) : syllableId syl s < syl.length :=
   List.idxOf_lt_length_iff.mpr h
 
